@@ -24,6 +24,10 @@ type skelEval struct {
 	c     *Ctx
 	sizes types.Sizes
 	depth int
+	// preset binds SSA values of the function being run (a case split on a local);
+	// onBlock is told every block entered at depth 0
+	preset  map[ssa.Value]*big.Int
+	onBlock func(*ssa.BasicBlock)
 }
 
 func wrapTo(v *big.Int, t types.Type, sizes types.Sizes) *big.Int {
@@ -49,6 +53,13 @@ func (e *skelEval) run(fn *ssa.Function, args []*big.Int) (*big.Int, error) {
 			env[p] = args[i]
 		}
 	}
+	preset := map[ssa.Value]bool{}
+	if e.depth == 0 {
+		for v, n := range e.preset {
+			env[v] = n
+			preset[v] = true
+		}
+	}
 	get := func(v ssa.Value) *big.Int {
 		if k, ok := v.(*ssa.Const); ok {
 			if n, ok := constInt(k); ok {
@@ -67,7 +78,13 @@ func (e *skelEval) run(fn *ssa.Function, args []*big.Int) (*big.Int, error) {
 	b := fn.Blocks[0]
 	var prev *ssa.BasicBlock
 	for steps := 0; steps < 2000; steps++ {
+		if e.depth == 0 && e.onBlock != nil {
+			e.onBlock(b)
+		}
 		for _, in := range b.Instrs {
+			if v, ok := in.(ssa.Value); ok && preset[v] {
+				continue
+			}
 			switch x := in.(type) {
 			case *ssa.Phi:
 				for i, p := range b.Preds {
